@@ -929,6 +929,10 @@ class cross(object):
                 else:
                     raise Exception("Unknown iff type " + str(iff))
         
+        # The expressions used to describe the cross must not 
+        # stay on the shared expression stack
+        ctor.clear_exprs()
+        
         # Capture the declaration location of this cross
         frame = inspect.stack()[1]
         self.srcinfo_decl = SourceInfo(frame.filename, frame.lineno)
